@@ -42,6 +42,7 @@ class Ctx:
         self.samples = []
         self.disagreements = []      # (suite, case, detail)
         self.failures = []           # (case, what, finding_id or None)
+        self._fail_counts = {}
         self.contract_violations = []
         self.suite_counts = {}
         self.t0 = time.time()
@@ -61,7 +62,18 @@ class Ctx:
     def model(self, req):
         if self.driver is None:
             self.driver = lib.Driver()
-        return self.driver.ask(req)
+        try:
+            return self.driver.ask(req)
+        except RuntimeError:
+            # the compiled model did not answer (it crashed or was killed): start a fresh one and report the request as
+            # one the model could not execute — the caller's comparison turns that into a disagreement on this input
+            try:
+                self.driver.close()
+            except Exception:    # noqa: BLE001
+                pass
+            self.driver = lib.Driver()
+            self.feature('model-driver-restarted')
+            return {'err': 'driver-died'}
 
     # -- bookkeeping
     def count(self, suite, fingerprint=None, nontrivial=True, sample=None):
@@ -85,7 +97,10 @@ class Ctx:
 
     def fail(self, case, what, finding=None):
         """the property's statement is false on the implementation for this input"""
-        if len(self.failures) < 200:
+        # the cap is per class: failures that fall under a (possibly listed) finding must never crowd out the others
+        n = self._fail_counts.get(finding, 0)
+        self._fail_counts[finding] = n + 1
+        if n < 200:
             self.failures.append((case, what, finding))
 
     def contract(self, name, case, detail):
@@ -171,9 +186,16 @@ def main(argv):
     # 3 + 4. correspondence and oracle
     ctx = Ctx(prop, tier, seed, scale=float(os.environ.get('VERIF_QUICK_SCALE', '3')) if tier == 'quick' else 1.0)
     if not driver_ok:
-        print('infrastructure failure: model driver does not build', file=sys.stderr)
-        print(out[-2000:], file=sys.stderr)
-        return 2
+        if 'CGV/Gen/' in out or 'CGV.Gen.' in out:
+            # the definitions REGENERATED FROM /repo no longer compile (the translated source left the shape the
+            # translator and the bridging theorems rely on): that is a broken tie, not infrastructure — no model can
+            # be executed, so the property's oracle alone searches the real code for a failing input
+            proof_problems.append('the definitions generated from the current source do not compile; the model cannot be executed')
+            ctx.oracle_only = True
+        else:
+            print('infrastructure failure: model driver does not build', file=sys.stderr)
+            print(out[-2000:], file=sys.stderr)
+            return 2
     try:
         # minimised past failures first (regression corpus), then the generated suites
         cdir = os.path.join(lib.VERIF, 'corpus', prop)
